@@ -91,7 +91,7 @@ type c09Occ struct {
 type c09Tx struct {
 	mon, day                  int
 	payee, acct, comm, amount string
-	memo                      bool // shape B: header "date payee | memo" and a balance assertion "= amount comm" on the posting
+	memo                      bool   // shape B: header "date payee | memo" and a balance assertion "= amount comm" on the posting
 	acomm                     string // shape B: the commodity of the balance assertion
 }
 
